@@ -173,6 +173,9 @@ func c16AnsSame(a, b c16Ans, what string) {
 	}
 }
 
+// c16SenderForm: text form of the SenderID the next requests use (0 lower-case hex, 1 upper-case hex, 2 0x prefix)
+var c16SenderForm int
+
 // request kinds: 0 join-request without CFList, 1 join-request with CFList, 2 rejoin-request (type 0) with CFList,
 // 3 rejoin-request without CFList, 4 join-request of an unknown device, 5 rejoin-request of an unknown device.
 func c16MakeReq(kind int, d c16Device, other lorawan.EUI64, tag string) (interface{}, c16Request) {
@@ -186,7 +189,14 @@ func c16MakeReq(kind int, d c16Device, other lorawan.EUI64, tag string) (interfa
 		devEUI = other
 	}
 	sender := lorawan.NetID(verifNondet3("senderNetID" + tag))
-	base := backend.BasePayload{ProtocolVersion: backend.ProtocolVersion1_0, SenderID: sender.String(), ReceiverID: d.joinEUI.String(), TransactionID: r.txID}
+	senderText := sender.String()
+	switch c16SenderForm {
+	case 1:
+		senderText = c16HexUpper(sender[:])
+	case 2:
+		senderText = "0x" + senderText
+	}
+	base := backend.BasePayload{ProtocolVersion: backend.ProtocolVersion1_0, SenderID: senderText, ReceiverID: d.joinEUI.String(), TransactionID: r.txID}
 	if kind == 0 || kind == 1 || kind == 4 {
 		devNonce := verifNondetU16("devNonce" + tag)
 		body := append(append(c16Rev8(d.joinEUI), c16Rev8(devEUI)...), byte(devNonce), byte(devNonce>>8))
@@ -442,5 +452,49 @@ func VerifC16_HandlerStore(kind, kekLen int) {
 	verifAssert(verifBytesEq(nsKEK, nsOrig) && verifBytesEq(asKEK, asOrig), "the handler does not modify the key material its call-backs returned")
 	second := c16Serve(h, req)
 	c16AnsSame(second, first, "the same request through the same handler and key store gets the same answer")
+	verifReach("done")
+}
+
+// KEKs are looked up under the SenderID exactly as received (upper-case / 0x forms included).
+func VerifC16_HandlerKEKForms(kind, form int) {
+	c16SenderForm = form
+	VerifC16_HandlerKEK(kind, 16)
+	c16SenderForm = 0
+}
+
+// A handler configured with the mandatory device-key look-up only answers like one whose optional call-backs
+// return "nothing configured".
+func VerifC16_HandlerDefaults(kind int) {
+	if verifSymbolic() {
+		verifJSONUnmarshalHook = c16UnmarshalHook
+		verifJSONMarshalHook = c16MarshalHook
+	}
+	d, _ := c16Draw(0, 0, 0)
+	other := lorawan.EUI64(verifNondet8("unknownDevEUI"))
+	verifAssume(other != d.devEUI)
+	jn := int(verifNondetU32("joinNonce") & 0xffffff)
+	dk := DeviceKeys{DevEUI: d.devEUI, NwkKey: lorawan.AES128Key(d.nwkKey), AppKey: lorawan.AES128Key(d.appKey), JoinNonce: jn}
+	h, err := NewHandler(HandlerConfig{
+		GetDeviceKeysByDevEUIFunc: func(devEUI lorawan.EUI64) (DeviceKeys, error) {
+			if devEUI == d.devEUI {
+				return dk, nil
+			}
+			return DeviceKeys{}, ErrDevEUINotFound
+		},
+	})
+	verifAssert(err == nil, "NewHandler succeeds with the mandatory call-back only")
+	req, r := c16MakeReq(kind, d, other, "A")
+	got := c16Serve(h, req)
+	c16CheckMirror(got, req, kind, r, "handler without optional call-backs")
+	var want c16Ans
+	switch q := req.(type) {
+	case backend.JoinReqPayload:
+		want = c16FromJoinAns(handleJoinRequestWrapper(q, dk, "", nil, q.SenderID, nil))
+	case backend.RejoinReqPayload:
+		want = c16FromRejoinAns(handleRejoinRequestWrapper(q, dk, "", nil, q.SenderID, nil))
+	}
+	if kind < 4 {
+		c16AnsSame(got, want, "without optional call-backs the keys travel in clear, as with call-backs that configure nothing")
+	}
 	verifReach("done")
 }
